@@ -1,7 +1,11 @@
 (* Elements/ProofsTotal.v — the chain update never panics or fails on histories that obey the
    contract lifecycle: in particular the revert order (revert contracts, delete the reverted
    chain index element, only then hand every remaining row to core's revert updater) never asks
-   core to revert a leaf the reverted block created. *)
+   core to revert a leaf the reverted block created.
+
+   WP-E2: a block may carry SEVERAL changes of one contract — exactly the combinations consensus
+   admits for a v2 contract ([shape2], mirrored from coq/Contracts/Chain.v, where the core rule behind
+   each clause is cited) — and pending rows are rejected by the per-block RejectContracts step. *)
 From Coq Require Import Lia ZifyBool ZifyN.
 From HostdBase Require Import Base.
 From HostdElements Require Import Model Proofs.
@@ -9,43 +13,77 @@ From HostdElements Require Import Model Proofs.
 (** * Contract lifecycle along a chain *)
 Definition ev_cid (e : event) : N :=
   match e with EFormed c _ => c | ERevised c _ _ => c | EResolved c _ => c end.
-Definition ev_of (c : N) (l : list event) : option event := find (fun e => (ev_cid e =? c)%N) l.
+(* the changes of contract c in a block, in the order Apply/RevertContracts meet them *)
+Definition evs_of (c : N) (l : list event) : list event := filter (fun e => (ev_cid e =? c)%N) l.
 
-Definition next_stat (old : cstatus) (e : option event) : cstatus :=
-  match e with
-  | Some (EFormed _ _) => SActive
-  | Some (EResolved _ k) => kstatus k
-  | _ => old
-  end.
-Definition prev_stat (cur : cstatus) (e : option event) : cstatus :=
-  match e with
-  | Some (EFormed _ _) => SUnconfirmed
-  | Some (EResolved _ _) => SActive
-  | _ => cur
-  end.
+Definition next1 (old : cstatus) (e : event) : cstatus :=
+  match e with EFormed _ _ => SActive | ERevised _ _ _ => old | EResolved _ k => kstatus k end.
+Definition prev1 (cur : cstatus) (e : event) : cstatus :=
+  match e with EFormed _ _ => SUnconfirmed | ERevised _ _ _ => cur | EResolved _ _ => SActive end.
 
-(* the status a contract the host knows has after the chain C (head = tip) *)
+(* the status the chain C (head = tip) gives a contract: pending until formed, then active, then
+   resolved.  (The row of a contract the chain leaves pending may be pending or rejected: [stat_rel].) *)
 Fixpoint cstat (C : list block) (c : N) : cstatus :=
   match C with
   | [] => SUnconfirmed
-  | b :: C' => next_stat (cstat C' c) (ev_of c (grouped (b_events b)))
+  | b :: C' => fold_left next1 (evs_of c (grouped (b_events b))) (cstat C' c)
   end.
 
-(* consensus: a contract is formed once, revised and resolved only while unresolved *)
+Definition unconf (st : cstatus) : bool :=
+  match st with SUnconfirmed | SRejected => true | _ => false end.
+
+(* consensus across blocks: a contract is formed once, revised and resolved only while unresolved
+   (validateV2FileContracts/validateParent: "is not present in the accumulator", "has already been
+   resolved in a previous block") *)
 Definition ev_ok (old : cstatus) (e : event) : Prop :=
   match e with
-  | EFormed _ _ => old = SUnconfirmed
+  | EFormed _ _ => unconf old = true
   | ERevised _ _ _ => old = SActive
   | EResolved _ _ => old = SActive
   end.
+Fixpoint evs_ok (old : cstatus) (l : list event) : Prop :=
+  match l with [] => True | e :: t => ev_ok old e /\ evs_ok (next1 old e) t end.
 
-(* at most one event per contract and block (a contract revised and resolved in the same block
-   is outside this predicate: buildContractState records it as revised only) *)
+(* consensus inside one block, per contract (core keeps ONE diff per contract id and block):
+     - nothing; created; revised (several revisions are merged into the last one); resolved;
+     - revised AND resolved: a revision and a renewal in different transactions of the block — the
+       diff carries Revision and Resolution.  (Revision + storage proof / expiration are admitted
+       here too although consensus excludes them — a proof needs the chain index of the proof height
+       in the parent state, an expiration childHeight > ExpirationHeight, a revision childHeight <=
+       ProofHeight: the theorems only get wider.)
+   Excluded: created together with anything else (a revision or resolution names its parent by a
+   Merkle proof in the accumulator of the parent state; resolveV2FileContractElement panics on a
+   created element), two resolutions, a revision after the resolution (validateParent, ms.spent). *)
+Definition shape2 (l : list event) : Prop :=
+  match l with
+  | [] | [EFormed _ _] | [ERevised _ _ _] | [EResolved _ _] | [ERevised _ _ _; EResolved _ _] => True
+  | _ => False
+  end.
+
+(* the confirmed revision number the chain C gives a contract: the created contract's, then the
+   last revision's *)
+Definition rev1 (r : N) (e : event) : N :=
+  match e with EFormed _ r' => r' | ERevised _ _ n => n | EResolved _ _ => r end.
+Fixpoint crevn (C : list block) (c : N) : N :=
+  match C with
+  | [] => 0%N
+  | b :: C' => fold_left rev1 (evs_of c (grouped (b_events b))) (crevn C' c)
+  end.
+(* a revision's diff names the contract as the chain holds it (its element is the parent in the
+   accumulator of the parent state): the "old" revision number of [ERevised] is the chain's *)
+Fixpoint revs_consistent (r : N) (l : list event) : Prop :=
+  match l with
+  | [] => True
+  | e :: t => match e with ERevised _ o _ => o = r | _ => True end /\ revs_consistent (rev1 r e) t
+  end.
+
 Fixpoint lifecycle_ok (C : list block) : Prop :=
   match C with
   | [] => True
-  | b :: C' => lifecycle_ok C' /\ NoDup (map ev_cid (grouped (b_events b))) /\
-               forall e, In e (grouped (b_events b)) -> ev_ok (cstat C' (ev_cid e)) e
+  | b :: C' => lifecycle_ok C' /\
+               forall c, shape2 (evs_of c (grouped (b_events b))) /\
+                         evs_ok (cstat C' c) (evs_of c (grouped (b_events b))) /\
+                         revs_consistent (crevn C' c) (evs_of c (grouped (b_events b)))
   end.
 
 Definition mentioned (c : N) (C : list block) : Prop :=
@@ -60,34 +98,51 @@ Qed.
 Lemma lifecycle_app X : forall Y, lifecycle_ok (X ++ Y) -> lifecycle_ok Y.
 Proof. induction X as [|b X IH]; intros Y H; cbn in H; [exact H|]. apply IH. tauto. Qed.
 
-Lemma ev_of_none c l : (forall e, In e l -> ev_cid e <> c) -> ev_of c l = None.
+Lemma evs_of_cons c e t : evs_of c (e :: t) = if (ev_cid e =? c)%N then e :: evs_of c t else evs_of c t.
+Proof. reflexivity. Qed.
+
+Lemma evs_of_In c l e : In e (evs_of c l) <-> In e l /\ ev_cid e = c.
+Proof. unfold evs_of. rewrite filter_In, N.eqb_eq. tauto. Qed.
+
+Lemma evs_of_none c l : (forall e, In e l -> ev_cid e <> c) -> evs_of c l = [].
 Proof.
-  unfold ev_of. induction l as [|e t IH]; intros H; cbn; [reflexivity|].
+  induction l as [|e t IH]; intros H; [reflexivity|]. rewrite evs_of_cons.
   destruct (ev_cid e =? c)%N eqn:Q; [exfalso; apply (H e); [left; reflexivity|lia]|].
   apply IH. intros e' He'. apply H. right. exact He'.
-Qed.
-
-Lemma ev_of_some c l e : ev_of c l = Some e -> In e l /\ ev_cid e = c.
-Proof.
-  unfold ev_of. intros H. apply find_some in H. destruct H as [H Q]. split; [exact H|lia].
-Qed.
-
-Lemma ev_of_in c l e : NoDup (map ev_cid l) -> In e l -> ev_cid e = c -> ev_of c l = Some e.
-Proof.
-  unfold ev_of. induction l as [|x t IH]; intros ND Hin E; [destruct Hin|].
-  cbn. inversion ND as [|? ? Hn ND']; subst. destruct Hin as [->|Hin].
-  - rewrite N.eqb_refl. reflexivity.
-  - destruct (ev_cid x =? ev_cid e)%N eqn:Q.
-    + exfalso. apply Hn. apply N.eqb_eq in Q. rewrite Q. apply in_map. exact Hin.
-    + apply IH; auto.
 Qed.
 
 Lemma cstat_unmentioned C c : ~ mentioned c C -> cstat C c = SUnconfirmed.
 Proof.
   induction C as [|b C IH]; intros H; cbn; [reflexivity|].
-  rewrite ev_of_none.
+  rewrite evs_of_none.
   - cbn. apply IH. intros [b' [e [Hb [He E]]]]. apply H. exists b', e. split; [right; exact Hb|auto].
   - intros e He E. apply H. exists b, e. split; [left; reflexivity|]. split; [apply grouped_In; exact He|exact E].
+Qed.
+
+Lemma fold_next1_not_rejected l : forall old, old <> SRejected -> fold_left next1 l old <> SRejected.
+Proof.
+  induction l as [|e t IH]; intros old H; cbn; [exact H|]. apply IH.
+  destruct e as [c r|c o n|c [| |]]; cbn; try discriminate. exact H.
+Qed.
+
+Lemma cstat_not_rejected C c : cstat C c <> SRejected.
+Proof. induction C as [|b C IH]; cbn; [discriminate|]. apply fold_next1_not_rejected. exact IH. Qed.
+
+(* the row of a contract follows the chain, except that a contract the chain leaves pending may
+   have been rejected *)
+Definition stat_rel (st x : cstatus) : Prop := st = x \/ (st = SRejected /\ x = SUnconfirmed).
+
+Lemma stat_rel_conf st x : unconf x = false -> stat_rel st x -> st = x.
+Proof. intros U [E|[_ E]]; [exact E|]. subst x. discriminate. Qed.
+
+Lemma evs_ok_rel st x l : stat_rel st x -> evs_ok x l ->
+  evs_ok st l /\ stat_rel (fold_left next1 l st) (fold_left next1 l x).
+Proof.
+  intros [->|[-> ->]] H; [split; [exact H|left; reflexivity]|].
+  destruct l as [|e t]; [split; [exact I|right; auto]|].
+  cbn [evs_ok fold_left] in *. destruct H as [H1 H2].
+  destruct e as [c r|c o n|c k]; cbn in H1; try discriminate.
+  cbn [next1] in *. split; [split; [reflexivity|exact H2]|left; reflexivity].
 Qed.
 
 (** * Status bookkeeping of the event loops *)
@@ -106,63 +161,59 @@ Proof.
     + destruct (k =? k2)%N; [reflexivity|exact IH].
 Qed.
 
-Definition stat_after (f : cstatus -> option event -> cstatus) (evs : list event) (s : state) (c : N) : option cstatus :=
-  match alookup c (contracts s) with Some st => Some (f st (ev_of c evs)) | None => None end.
 
 Lemma apply_event_status b s e : (forall st, alookup (ev_cid e) (contracts s) = Some st -> ev_ok st e) ->
   exists s', apply_event b s e = Ok s' /\
     forall c, alookup c (contracts s') =
-      if (ev_cid e =? c)%N then stat_after next_stat [e] s c else alookup c (contracts s).
+      if (ev_cid e =? c)%N then option_map (fun st => next1 st e) (alookup c (contracts s)) else alookup c (contracts s).
 Proof.
-  intros V. unfold stat_after, ev_of. destruct e as [c0 rv|c0 o nw|c0 k]; cbn [apply_event ev_cid find] in *.
+  intros V. destruct e as [c0 rv|c0 o nw|c0 k]; cbn [apply_event ev_cid] in *.
   - destruct (alookup c0 (contracts s)) as [st|] eqn:L.
-    + specialize (V st eq_refl). cbn in V. subst st. eexists. split; [reflexivity|].
-      intros c. cbn [contracts set_c]. destruct (c0 =? c)%N eqn:Q.
-      * apply N.eqb_eq in Q. subst c. rewrite alookup_aset_same, L. cbn; rewrite ?N.eqb_refl; reflexivity.
+    + specialize (V st eq_refl). cbn in V.
+      assert (exists s', match st with
+                | SUnconfirmed | SRejected => Ok (set_c s (aset c0 SActive (contracts s)) (cset c0 {| ce_cid := c0; ce_basis := Some (b_idx b); ce_born := b_idx b; ce_rev := rv |} (celems s)))
+                | _ => Ok (set_c s (contracts s) (cset c0 {| ce_cid := c0; ce_basis := Some (b_idx b); ce_born := b_idx b; ce_rev := rv |} (celems s)))
+                end = Ok s' /\ contracts s' = aset c0 SActive (contracts s)) as [s' [E Hc]].
+      { destruct st; try discriminate; eexists; split; reflexivity. }
+      exists s'. split; [exact E|]. intros c. rewrite Hc. destruct (c0 =? c)%N eqn:Q.
+      * apply N.eqb_eq in Q. subst c. rewrite alookup_aset_same, L. reflexivity.
       * apply alookup_aset_other. lia.
     + exists s. split; [reflexivity|]. intros c. destruct (c0 =? c)%N eqn:Q; [|reflexivity].
       apply N.eqb_eq in Q. subst c. rewrite L. reflexivity.
   - unfold known. destruct (alookup c0 (contracts s)) as [st|] eqn:L.
     + eexists. split; [reflexivity|]. intros c. cbn [contracts set_c]. destruct (c0 =? c)%N eqn:Q; [|reflexivity].
-      apply N.eqb_eq in Q. subst c. rewrite L. cbn; rewrite ?N.eqb_refl; reflexivity.
+      apply N.eqb_eq in Q. subst c. rewrite L. reflexivity.
     + exists s. split; [reflexivity|]. intros c. destruct (c0 =? c)%N eqn:Q; [|reflexivity].
       apply N.eqb_eq in Q. subst c. rewrite L. reflexivity.
   - destruct (alookup c0 (contracts s)) as [st|] eqn:L.
     + specialize (V st eq_refl). cbn in V. subst st.
       assert (cstatus_eqb SActive (kstatus k) = false) as F by (destruct k; reflexivity). rewrite F.
       eexists. split; [reflexivity|]. intros c. cbn [contracts set_c]. destruct (c0 =? c)%N eqn:Q.
-      * apply N.eqb_eq in Q. subst c. rewrite alookup_aset_same, L. cbn; rewrite ?N.eqb_refl; reflexivity.
+      * apply N.eqb_eq in Q. subst c. rewrite alookup_aset_same, L. reflexivity.
       * apply alookup_aset_other. lia.
     + exists s. split; [reflexivity|]. intros c. destruct (c0 =? c)%N eqn:Q; [|reflexivity].
       apply N.eqb_eq in Q. subst c. rewrite L. reflexivity.
 Qed.
 
-Lemma ev_of_cons c e t : ev_of c (e :: t) = if (ev_cid e =? c)%N then Some e else ev_of c t.
-Proof. reflexivity. Qed.
-
-Lemma apply_events_status b : forall evs s, NoDup (map ev_cid evs) ->
-  (forall e, In e evs -> forall st, alookup (ev_cid e) (contracts s) = Some st -> ev_ok st e) ->
+(* the loop over ALL changes of a block, any number per contract: each contract's row goes through
+   its own changes in order *)
+Lemma apply_events_status b : forall evs s,
+  (forall c st, alookup c (contracts s) = Some st -> evs_ok st (evs_of c evs)) ->
   exists s', fold_res (apply_event b) evs s = Ok s' /\
-    forall c, alookup c (contracts s') = stat_after next_stat evs s c.
+    forall c, alookup c (contracts s') = option_map (fold_left next1 (evs_of c evs)) (alookup c (contracts s)).
 Proof.
-  induction evs as [|e t IH]; intros s ND V; cbn [fold_res].
-  - exists s. split; [reflexivity|]. intros c. unfold stat_after. cbn. destruct (alookup c (contracts s)); reflexivity.
-  - inversion ND as [|? ? Hn ND']; subst.
-    destruct (apply_event_status b s e (V e (or_introl eq_refl))) as [s1 [E1 S1]].
+  induction evs as [|e t IH]; intros s V; cbn [fold_res].
+  - exists s. split; [reflexivity|]. intros c. cbn. destruct (alookup c (contracts s)); reflexivity.
+  - destruct (apply_event_status b s e) as [s1 [E1 S1]].
+    { intros st Hst. specialize (V _ _ Hst). rewrite evs_of_cons, N.eqb_refl in V. exact (proj1 V). }
     rewrite E1. cbn [bind].
-    assert (forall e', In e' t -> forall st, alookup (ev_cid e') (contracts s1) = Some st -> ev_ok st e') as V1.
-    { intros e' He' st Hst. rewrite S1 in Hst.
-      destruct (ev_cid e =? ev_cid e')%N eqn:Q.
-      - exfalso. apply Hn. apply N.eqb_eq in Q. rewrite Q. apply in_map. exact He'.
-      - apply (V e' (or_intror He') st Hst). }
-    destruct (IH s1 ND' V1) as [s' [E' S']]. exists s'. split; [exact E'|].
-    intros c. rewrite S'. unfold stat_after. rewrite S1, ev_of_cons.
-    destruct (ev_cid e =? c)%N eqn:Q.
-    + apply N.eqb_eq in Q. subst c. unfold stat_after.
-      rewrite (ev_of_none (ev_cid e) t).
-      * cbn [ev_of find]. rewrite N.eqb_refl. destruct (alookup (ev_cid e) (contracts s)) as [st|]; [|reflexivity].
-        destruct e; reflexivity.
-      * intros e' He' E. apply Hn. rewrite <- E. apply in_map. exact He'.
+    destruct (IH s1) as [s' [E' S']].
+    { intros c st Hst. rewrite S1 in Hst. destruct (ev_cid e =? c)%N eqn:Q.
+      - destruct (alookup c (contracts s)) as [st0|] eqn:L0; [|discriminate]. cbn in Hst. injection Hst as <-.
+        specialize (V c st0 L0). rewrite evs_of_cons, Q in V. exact (proj2 V).
+      - specialize (V c st Hst). rewrite evs_of_cons, Q in V. exact V. }
+    exists s'. split; [exact E'|]. intros c. rewrite S', S1, evs_of_cons. destruct (ev_cid e =? c)%N eqn:Q.
+    + destruct (alookup c (contracts s)); reflexivity.
     + reflexivity.
 Qed.
 
@@ -172,60 +223,117 @@ Definition rev_ok (cur : cstatus) (e : event) : Prop :=
   | ERevised _ _ _ => True
   | EResolved _ k => cur = kstatus k
   end.
+Fixpoint revs_ok (cur : cstatus) (l : list event) : Prop :=
+  match l with [] => True | e :: t => rev_ok cur e /\ revs_ok (prev1 cur e) t end.
 
 Lemma revert_event_status s e : (forall st, alookup (ev_cid e) (contracts s) = Some st -> rev_ok st e) ->
   exists s', revert_event s e = Ok s' /\
     forall c, alookup c (contracts s') =
-      if (ev_cid e =? c)%N then stat_after prev_stat [e] s c else alookup c (contracts s).
+      if (ev_cid e =? c)%N then option_map (fun st => prev1 st e) (alookup c (contracts s)) else alookup c (contracts s).
 Proof.
-  intros V. unfold stat_after, ev_of. destruct e as [c0 rv|c0 o nw|c0 k]; cbn [revert_event ev_cid find] in *.
+  intros V. destruct e as [c0 rv|c0 o nw|c0 k]; cbn [revert_event ev_cid] in *.
   - destruct (alookup c0 (contracts s)) as [st|] eqn:L.
     + specialize (V st eq_refl). cbn in V. subst st. eexists. split; [reflexivity|].
       intros c. cbn [contracts set_c]. destruct (c0 =? c)%N eqn:Q.
-      * apply N.eqb_eq in Q. subst c. rewrite alookup_aset_same, L. cbn; rewrite ?N.eqb_refl; reflexivity.
+      * apply N.eqb_eq in Q. subst c. rewrite alookup_aset_same, L. reflexivity.
       * apply alookup_aset_other. lia.
     + exists s. split; [reflexivity|]. intros c. destruct (c0 =? c)%N eqn:Q; [|reflexivity].
       apply N.eqb_eq in Q. subst c. rewrite L. reflexivity.
   - unfold known. destruct (alookup c0 (contracts s)) as [st|] eqn:L.
     + eexists. split; [reflexivity|]. intros c. cbn [contracts set_c]. destruct (c0 =? c)%N eqn:Q; [|reflexivity].
-      apply N.eqb_eq in Q. subst c. rewrite L. cbn; rewrite ?N.eqb_refl; reflexivity.
+      apply N.eqb_eq in Q. subst c. rewrite L. reflexivity.
     + exists s. split; [reflexivity|]. intros c. destruct (c0 =? c)%N eqn:Q; [|reflexivity].
       apply N.eqb_eq in Q. subst c. rewrite L. reflexivity.
   - destruct (alookup c0 (contracts s)) as [st|] eqn:L.
     + specialize (V st eq_refl). cbn in V. subst st.
       assert (cstatus_eqb (kstatus k) (kstatus k) = true) as F by (destruct k; reflexivity). rewrite F.
       eexists. split; [reflexivity|]. intros c. cbn [contracts set_c]. destruct (c0 =? c)%N eqn:Q.
-      * apply N.eqb_eq in Q. subst c. rewrite alookup_aset_same, L. cbn; rewrite ?N.eqb_refl; reflexivity.
+      * apply N.eqb_eq in Q. subst c. rewrite alookup_aset_same, L. reflexivity.
       * apply alookup_aset_other. lia.
     + exists s. split; [reflexivity|]. intros c. destruct (c0 =? c)%N eqn:Q; [|reflexivity].
       apply N.eqb_eq in Q. subst c. rewrite L. reflexivity.
 Qed.
 
-Lemma revert_events_status : forall evs s, NoDup (map ev_cid evs) ->
-  (forall e, In e evs -> forall st, alookup (ev_cid e) (contracts s) = Some st -> rev_ok st e) ->
+Lemma revert_events_status : forall evs s,
+  (forall c st, alookup c (contracts s) = Some st -> revs_ok st (evs_of c evs)) ->
   exists s', fold_res revert_event evs s = Ok s' /\
-    forall c, alookup c (contracts s') = stat_after prev_stat evs s c.
+    forall c, alookup c (contracts s') = option_map (fold_left prev1 (evs_of c evs)) (alookup c (contracts s)).
 Proof.
-  induction evs as [|e t IH]; intros s ND V; cbn [fold_res].
-  - exists s. split; [reflexivity|]. intros c. unfold stat_after. cbn. destruct (alookup c (contracts s)); reflexivity.
-  - inversion ND as [|? ? Hn ND']; subst.
-    destruct (revert_event_status s e (V e (or_introl eq_refl))) as [s1 [E1 S1]].
+  induction evs as [|e t IH]; intros s V; cbn [fold_res].
+  - exists s. split; [reflexivity|]. intros c. cbn. destruct (alookup c (contracts s)); reflexivity.
+  - destruct (revert_event_status s e) as [s1 [E1 S1]].
+    { intros st Hst. specialize (V _ _ Hst). rewrite evs_of_cons, N.eqb_refl in V. exact (proj1 V). }
     rewrite E1. cbn [bind].
-    assert (forall e', In e' t -> forall st, alookup (ev_cid e') (contracts s1) = Some st -> rev_ok st e') as V1.
-    { intros e' He' st Hst. rewrite S1 in Hst.
-      destruct (ev_cid e =? ev_cid e')%N eqn:Q.
-      - exfalso. apply Hn. apply N.eqb_eq in Q. rewrite Q. apply in_map. exact He'.
-      - apply (V e' (or_intror He') st Hst). }
-    destruct (IH s1 ND' V1) as [s' [E' S']]. exists s'. split; [exact E'|].
-    intros c. rewrite S'. unfold stat_after. rewrite S1, ev_of_cons.
-    destruct (ev_cid e =? c)%N eqn:Q.
-    + apply N.eqb_eq in Q. subst c. unfold stat_after.
-      rewrite (ev_of_none (ev_cid e) t).
-      * cbn [ev_of find]. rewrite N.eqb_refl. destruct (alookup (ev_cid e) (contracts s)) as [st|]; [|reflexivity].
-        destruct e; reflexivity.
-      * intros e' He' E. apply Hn. rewrite <- E. apply in_map. exact He'.
+    destruct (IH s1) as [s' [E' S']].
+    { intros c st Hst. rewrite S1 in Hst. destruct (ev_cid e =? c)%N eqn:Q.
+      - destruct (alookup c (contracts s)) as [st0|] eqn:L0; [|discriminate]. cbn in Hst. injection Hst as <-.
+        specialize (V c st0 L0). rewrite evs_of_cons, Q in V. exact (proj2 V).
+      - specialize (V c st Hst). rewrite evs_of_cons, Q in V. exact V. }
+    exists s'. split; [exact E'|]. intros c. rewrite S', S1, evs_of_cons. destruct (ev_cid e =? c)%N eqn:Q.
+    + destruct (alookup c (contracts s)); reflexivity.
     + reflexivity.
 Qed.
+
+(* the changes consensus admits for one contract in one block are undone by RevertContracts' order
+   (formations, revisions, resolutions — the order of [grouped], NOT the reverse of the apply order):
+   a row that went through them comes back to what the chain below says *)
+Lemma shape_revert l old : shape2 l -> evs_ok old l -> old <> SRejected ->
+  forall st, stat_rel st (fold_left next1 l old) -> revs_ok st l /\ stat_rel (fold_left prev1 l st) old.
+Proof.
+  intros Sh Ok NR st R.
+  destruct l as [|e1 [|e2 [|e3 t]]]; [| | |destruct e1, e2; cbn in Sh; contradiction].
+  - cbn in *. split; [exact I|exact R].
+  - destruct e1 as [c r|c o n|c k]; cbn in Ok, R |- *; destruct Ok as [O1 _].
+    + apply (stat_rel_conf st SActive eq_refl) in R. subst st. split; [auto|]. left.
+      destruct old; try discriminate; [reflexivity|congruence].
+    + subst old. apply (stat_rel_conf st SActive eq_refl) in R. subst st. split; [auto|left; reflexivity].
+    + subst old. assert (unconf (kstatus k) = false) as U by (destruct k; reflexivity).
+      apply (stat_rel_conf _ _ U) in R. subst st. split; [auto|left; reflexivity].
+  - destruct e1 as [c r|c o n|c k], e2 as [c' r'|c' o' n'|c' k']; cbn in Sh; try contradiction.
+    cbn in Ok, R |- *. destruct Ok as [O1 _]. subst old.
+    assert (unconf (kstatus k') = false) as U by (destruct k'; reflexivity).
+    apply (stat_rel_conf _ _ U) in R. subst st. split; [auto|left; reflexivity].
+Qed.
+
+(** * RejectContracts only turns pending rows into rejected ones *)
+Definition rejst (rb h : N) (ng : list (N * N)) (c : N) (st : cstatus) : cstatus :=
+  if (rb <=? h)%N then snd (rej1 rb h ng (c, st)) else st.
+
+Lemma rej1_fst rb h ng p : fst (rej1 rb h ng p) = fst p.
+Proof.
+  unfold rej1. destruct (snd p); try reflexivity. destruct (alookup (fst p) ng) as [g|]; [|reflexivity].
+  destruct (g <? h - rb)%N; reflexivity.
+Qed.
+
+Lemma alookup_reject rb h ng c cs :
+  alookup c (reject_rows rb h ng cs) = option_map (rejst rb h ng c) (alookup c cs).
+Proof.
+  unfold reject_rows, rejst. destruct (rb <=? h)%N; [|destruct (alookup c cs); reflexivity].
+  induction cs as [|[k v] t IH]; [reflexivity|]. cbn [map].
+  pose proof (rej1_fst rb h ng (k, v)) as F. destruct (rej1 rb h ng (k, v)) as [k' v'] eqn:E. cbn in F. subst k'.
+  cbn [alookup]. destruct (c =? k)%N eqn:Q; [|exact IH].
+  apply N.eqb_eq in Q. subst k. cbn. rewrite E. reflexivity.
+Qed.
+
+Lemma rejst_cases rb h ng c st : rejst rb h ng c st = st \/ (st = SUnconfirmed /\ rejst rb h ng c st = SRejected).
+Proof.
+  unfold rejst, rej1. destruct (rb <=? h)%N; [|left; reflexivity]. cbn [fst snd].
+  destruct st; try (left; reflexivity). destruct (alookup c ng) as [g|]; [|left; reflexivity].
+  destruct (g <? h - rb)%N; [right; split; reflexivity|left; reflexivity].
+Qed.
+
+Lemma stat_rel_reject rb h ng c st x : stat_rel st x -> stat_rel (rejst rb h ng c st) x.
+Proof.
+  intros R. destruct (rejst_cases rb h ng c st) as [->|[-> ->]]; [exact R|].
+  right. split; [reflexivity|]. destruct R as [<-|[E _]]; [reflexivity|discriminate].
+Qed.
+
+Lemma rejst_conf rb h ng c st : unconf (rejst rb h ng c st) = unconf st.
+Proof. destruct (rejst_cases rb h ng c st) as [->|[-> ->]]; reflexivity. Qed.
+
+Lemma known_reject (s s' : state) rb h ng : contracts s' = reject_rows rb h ng (contracts s) ->
+  forall c, known s' c = known s c.
+Proof. intros E c. unfold known. rewrite E, alookup_reject. destruct (alookup c (contracts s)); reflexivity. Qed.
 
 (** * Element side of the revert loop: the elements of the formations of the block are gone *)
 Lemma revert_event_keeps_absent s e s' c : revert_event s e = Ok s' ->
@@ -292,7 +400,7 @@ Qed.
 
 (** * Invariants for totality *)
 Definition stat_inv (s : state) (C : list block) : Prop :=
-  forall c st, alookup c (contracts s) = Some st -> st = cstat C c.
+  forall c st, alookup c (contracts s) = Some st -> stat_rel st (cstat C c).
 Definition elems_known (s : state) : Prop := forall e, In e (celems s) -> known s (ce_cid e) = true.
 
 Lemma known_aset s c st c' : known s c' = true ->
@@ -342,40 +450,45 @@ Proof.
   - destruct H as [H _]. discriminate (H eq_refl).
 Qed.
 
-Lemma stat_after_none f evs s c : stat_after f evs s c = None <-> alookup c (contracts s) = None.
-Proof. unfold stat_after. destruct (alookup c (contracts s)); split; congruence. Qed.
+Lemma option_map_none A B (f : A -> B) o : option_map f o = None <-> o = None.
+Proof. destruct o; cbn; split; congruence. Qed.
 
 (** * One block never fails on a lifecycle-conforming chain *)
 Lemma apply_block_total s C b : linked (b :: C) -> lifecycle_ok (b :: C) -> stat_inv s C -> elems_known s ->
   exists s', apply_block s b = Ok s' /\ stat_inv s' (b :: C) /\ elems_known s'.
 Proof.
-  intros L LC SI EK. cbn [lifecycle_ok] in LC. destruct LC as [_ [ND V]].
-  destruct (apply_events_status b (grouped (b_events b)) s ND) as [s1 [E1 S1]].
-  { intros e He st Hst. rewrite (SI _ _ Hst). apply V. exact He. }
-  unfold apply_block, apply_block_g. rewrite E1. cbn [bind].
+  intros L LC SI EK. cbn [lifecycle_ok] in LC. destruct LC as [_ V].
+  set (evs := grouped (b_events b)) in *.
+  destruct (apply_events_status b evs s) as [s1 [E1 S1]].
+  { intros c st Hst. exact (proj1 (evs_ok_rel st _ _ (SI _ _ Hst) (proj1 (proj2 (V c))))). }
+  unfold apply_block, apply_block_g. fold evs. rewrite E1. cbn [bind].
   rewrite (crefresh_apply_full sel_all _ _ b (celems s1) (fun e _ => row_sel_all _ _ e)).
   eexists. split; [reflexivity|]. split.
-  - intros c st. cbn [contracts]. rewrite S1. unfold stat_after.
+  - intros c st. cbn [contracts]. rewrite alookup_reject, S1.
     destruct (alookup c (contracts s)) as [st0|] eqn:L0; [|discriminate].
-    intros [= <-]. cbn [cstat]. rewrite (SI _ _ L0). reflexivity.
+    cbn. intros [= <-]. apply stat_rel_reject. cbn [cstat]. fold evs.
+    exact (proj2 (evs_ok_rel st0 _ _ (SI _ _ L0) (proj1 (proj2 (V c))))).
   - pose proof (apply_events_known b _ s s1 EK E1) as EK1.
     intros x Hx. cbn [celems] in Hx. unfold cupd_apply in Hx. apply in_map_iff in Hx.
-    destruct Hx as [x0 [<- Hx0]]. unfold known. cbn. apply (EK1 x0 Hx0).
+    destruct Hx as [x0 [<- Hx0]]. unfold known. cbn [contracts ce_cid upd1_apply]. rewrite alookup_reject.
+    specialize (EK1 x0 Hx0). unfold known in EK1. destruct (alookup (ce_cid x0) (contracts s1)); [reflexivity|discriminate].
 Qed.
 
 Lemma revert_block_total s C b : linked (b :: C) -> lifecycle_ok (b :: C) -> el_inv s (b :: C) ->
   stat_inv s (b :: C) -> elems_known s ->
   exists s', revert_block s b = Ok s' /\ stat_inv s' C /\ elems_known s'.
 Proof.
-  intros L LC EI SI EK. pose proof LC as LC'. cbn [lifecycle_ok] in LC'. destruct LC' as [_ [ND V]].
+  intros L LC EI SI EK. pose proof LC as LC'. cbn [lifecycle_ok] in LC'. destruct LC' as [_ V].
   set (evs := grouped (b_events b)) in *.
-  destruct (revert_events_status evs s ND) as [s1 [E1 S1]].
-  { intros e He st Hst. rewrite (SI _ _ Hst). cbn [cstat]. fold evs.
-    rewrite (ev_of_in (ev_cid e) evs e ND He eq_refl). specialize (V e He).
-    destruct e; cbn in *; auto. }
+  assert (forall c st, alookup c (contracts s) = Some st ->
+            revs_ok st (evs_of c evs) /\ stat_rel (fold_left prev1 (evs_of c evs) st) (cstat C c)) as SR.
+  { intros c st Hst. apply (shape_revert _ _ (proj1 (V c)) (proj1 (proj2 (V c))) (cstat_not_rejected C c)).
+    exact (SI _ _ Hst). }
+  destruct (revert_events_status evs s) as [s1 [E1 S1]].
+  { intros c st Hst. exact (proj1 (SR c st Hst)). }
   destruct (revert_events_spec evs s s1 E1) as [I1 [_ C1]].
   assert (forall c, known s1 c = known s c) as K1.
-  { apply known_of_status. intros c. rewrite S1. apply stat_after_none. }
+  { apply known_of_status. intros c. rewrite S1. apply option_map_none. }
   (* no surviving contract element was born in b *)
   assert (forall x, In x (celems s1) -> ce_born x <> b_idx b) as NB.
   { intros x Hx Eb. destruct (C1 x Hx) as [x0 [Hx0 [A [_ D]]]].
@@ -392,12 +505,9 @@ Proof.
   unfold revert_block, revert_block_g. fold evs. rewrite E1. cbn [bind]. rewrite Eie. cbn [bind].
   rewrite (crefresh_revert_full sel_all _ _ b (celems s1) (fun e _ => row_sel_all _ _ e)). rewrite Ece. cbn [bind].
   eexists. split; [reflexivity|]. split.
-  - intros c st. cbn [contracts]. rewrite S1. unfold stat_after.
-    destruct (alookup c (contracts s)) as [st0|] eqn:L0; [|discriminate]. intros [= <-].
-    pose proof (SI _ _ L0) as E0. cbn [cstat] in E0. fold evs in E0. rewrite E0.
-    destruct (ev_of c evs) as [e|] eqn:Q; [|reflexivity].
-    destruct (ev_of_some c evs e Q) as [He Ec]. specialize (V e He). rewrite Ec in V.
-    destruct e; cbn in *; congruence.
+  - intros c st. cbn [contracts]. rewrite S1.
+    destruct (alookup c (contracts s)) as [st0|] eqn:L0; [|discriminate]. cbn. intros [= <-].
+    exact (proj2 (SR c st0 L0)).
   - intros x Hx. cbn [celems] in Hx.
     destruct (cupd_revert_spec b _ _ Ece x Hx) as [x1 [Hx1 [A _]]].
     destruct (C1 x1 Hx1) as [x0 [Hx0 [A0 _]]].
@@ -459,49 +569,3 @@ Proof.
     apply (tinv_ext s2); auto.
 Qed.
 
-(* histories that obey the contract lifecycle (no reset: the contract statuses deliberately
-   survive ResetChainState and are re-synchronised by the rescan's skip branches) *)
-Inductive lreach : state -> list block -> Prop :=
-| lreach_init : lreach init []
-| lreach_add s C c : lreach s C -> ~ mentioned c C -> lreach (fst (step s (AddContract c))) C
-| lreach_batch s C rs bs s' :
-    lreach s C -> wf_batch C rs bs -> lifecycle_ok (chain_after C rs bs) -> batch s rs bs = Ok s' ->
-    lreach s' (chain_after C rs bs)
-(* a renewal negotiated at RPC time: the new contract is not on the chain yet *)
-| lreach_renew s C c r : lreach s C -> ~ mentioned r C -> lreach (fst (step s (Renew c r))) C.
-
-Lemma lreach_tinv s C : lreach s C -> tinv s C.
-Proof.
-  induction 1 as [|s C c R IH Hm|s C rs bs s' R IH F LC H|s C c r R IH Hm].
-  - repeat split; cbn; auto; intros; try discriminate; try contradiction. intros x [].
-  - unfold step; cbn [step_g]. destruct (known s c) eqn:K; cbn [fst]; [exact IH|].
-    destruct IH as [L [LCy [EI [SI EK]]]]. repeat split; auto.
-    + intros c' st. cbn [contracts]. destruct (N.eq_dec c' c) as [->|Hne].
-      * rewrite alookup_aset_same. intros [= <-]. symmetry. apply cstat_unmentioned. exact Hm.
-      * rewrite alookup_aset_other by exact Hne. apply SI.
-    + intros x Hx. cbn [celems] in Hx. unfold known. cbn [contracts]. apply known_aset. apply EK. exact Hx.
-  - destruct (batch_total s C rs bs IH F LC) as [s2 [E2 T2]]. rewrite H in E2. injection E2 as ->. exact T2.
-  - unfold step; cbn [step_g]. unfold renew. destruct (known s c && negb (known s r)) eqn:K; cbn [fst]; [|exact IH].
-    destruct IH as [L [LCy [EI [SI EK]]]]. repeat split; auto.
-    + intros c' st. cbn [contracts]. destruct (N.eq_dec c' r) as [->|Hne].
-      * rewrite alookup_aset_same. intros [= <-]. symmetry. apply cstat_unmentioned. exact Hm.
-      * rewrite alookup_aset_other by exact Hne. apply SI.
-    + intros x Hx. cbn [celems] in Hx. unfold known. cbn [contracts]. apply known_aset. apply EK. exact Hx.
-Qed.
-
-(* every well-formed, lifecycle-conforming batch succeeds: no error, no panic *)
-Theorem batch_never_fails s C rs bs : lreach s C -> wf_batch C rs bs -> lifecycle_ok (chain_after C rs bs) ->
-  exists s', batch s rs bs = Ok s'.
-Proof.
-  intros R F LC. destruct (batch_total s C rs bs (lreach_tinv s C R) F LC) as [s' [E _]]. exists s'. exact E.
-Qed.
-
-(* lifecycle histories are histories: everything proved for [reach] applies *)
-Lemma lreach_reach s C : lreach s C -> exists hm, reach s C hm.
-Proof.
-  induction 1 as [|s C c R [hm IH] Hm|s C rs bs s' R [hm IH] F LC H|s C c r R [hm IH] Hm].
-  - exists 0%N. constructor.
-  - exists hm. apply reach_add. exact IH.
-  - exists (hmax_after hm bs). exact (reach_batch s C hm rs bs s' IH F H).
-  - exists hm. apply reach_renew. exact IH.
-Qed.
